@@ -15,6 +15,8 @@ import Sqfs.Spec.FsTree
     → "ok <dump>" | "err"      (dump format: see harness/h_c11.c)
   direct <full|count> <d.uid> <d.gid> <d.mtime> <d.mode> <n> (A|L step)*
       → as `run` without glob steps; `count` prints only "ok n=<number of inodes>"   (real: fstree_add_generic called directly)
+  maindefaults <d.uid> <d.gid> <dirscan flags> <force uid> <force gid>
+                         → "<uid> <gid>": the default owner after mkfs.c main() has applied --set-uid and --set-gid
   isort <name>*          → the names after `insert_sorted` of each, in the order given   (real: fstree_add_generic)
   readnames <sorted 0|1> <name>*
                          → the names in the order `read_names` (dir_unix.c) leaves them in `it->names`, i.e. the order
@@ -174,6 +176,12 @@ def step (line : String) : String :=
           match postProcess t links with
           | none => "err"
           | some r => if what = "count" then s!"ok n={r.inodes.length}" else dump r
+    | _, _, _, _, _ => "bad-op"
+  | "maindefaults" :: du :: dg :: fl :: fu :: fg :: [] =>
+    match nat? du, nat? dg, nat? fl, nat? fu, nat? fg with
+    | some du, some dg, some fl, some fu, some fg =>
+      let d := mainDefaults { uid := du, gid := dg, mtime := 0, mode := 0 } fl fu fg
+      s!"{d.uid} {d.gid}"
     | _, _, _, _, _ => "bad-op"
   | "isort" :: names =>
     match names.mapM fromHex with
